@@ -424,8 +424,8 @@ def round2(ctx, rng, cd, cat):
     po, perrs = codec._run_chunks(eexe, pl, core.NCPU, 900)
     if perrs:
         ctx.violation(dict(kind="harness-crash", detail=perrs[:2]), what="c09_enc crashed on a compression history: %r" % (perrs[0],))
-    # the same histories through the extracted model of the pledge bookkeeping (coq/Codec/C09Pledge.v): fixed=1 is the behaviour the
-    # property asks for (theorem C09_pledge_enforced), fixed=0 the tree as it stands (theorem C09_pledge_as_is)
+    # the same histories through the extracted model of the pledge bookkeeping (coq/Codec/C09Pledge.v): fixed=1 is the tree since
+    # 99eca65 (theorem C09_pledge_enforced), fixed=0 the tree before it (theorem C09_pledge_before_99eca65)
     mexe = core.build_extracted("c09model", "Extract/Extract_C09.v", "c09_driver.ml")
     ml_ = []
     for k, (var, params, pledge, ch, n) in pmeta.items():
@@ -463,7 +463,9 @@ def round2(ctx, rng, cd, cat):
             supplied = n
         ok = t[0] == "OK"
         # is the pledge in force?  zstd.h (ZSTD_CCtx_setPledgedSrcSize, note 3): overridden when the end directive comes with the very
-        # first call; the legacy initialisers document 0 as "unknown"
+        # first call ("all input data is provided and consumed in a single round"); the legacy initialisers document 0 as "unknown".
+        # With ZSTD_c_stableInBuffer a ZSTD_e_continue call below one block is only recorded: the pledge is in force as soon as such
+        # a call ACCEPTED at least one byte (repair 99eca65); deferred calls of 0 bytes change no state and do not start the frame.
         first_dir = chs[0][1] if chs else 2
         deferred = False
         if var == "s2":
@@ -476,6 +478,8 @@ def round2(ctx, rng, cd, cat):
                         init_dir = cdir
                         break
                 deferred = init_dir == 2     # every earlier e_continue call was "pretend-consumed": the frame starts under ZSTD_e_end
+                if deferred and acc == 0:
+                    in_force = False         # nothing was accepted before the end directive
         elif var.startswith("old"):
             in_force = bool(chs) and not (pledge == 0 and var in ("old0", "old1"))
         elif var.startswith("bl"):
@@ -499,7 +503,7 @@ def round2(ctx, rng, cd, cat):
             if (m1[1] == "ok") != expect_ok:
                 ctx.violation(dict(rep, model=m1), what="the pledge model (fixed=1) disagrees with the property's statement on history %s (pledged %d, supplied %d)" % (ch, pledge, supplied), no_input=True)
             if ok != (m0[1] == "ok") and ok != (m1[1] == "ok"):
-                ctx.violation(dict(rep, model_as_is=m0, model_fixed=m1), what="libzstd's verdict (%s) on pledge history %s (%s, pledged %d, supplied %d) matches neither the model of the tree as it stands nor the repaired one" % (
+                ctx.violation(dict(rep, model_as_is=m0, model_fixed=m1), what="libzstd's verdict (%s) on pledge history %s (%s, pledged %d, supplied %d) matches neither model of the pledge bookkeeping (before / since 99eca65)" % (
                     "success" if ok else t[1], ch, var, pledge, supplied))
             if not ok and len(t) > 2 and t[2] != "-":
                 last = [c for c in t[2].split(";") if c][-1]
